@@ -1245,7 +1245,7 @@ async fn control_self_sees_more(world: &World, acc: &mut Acc) {
 
 pub fn run(args: Args) {
     let args = crate::sim::args_from_replay(args);
-    crate::sim::watchdog(&args, if args.tier == kvcore::Tier::Thorough { 2700 } else { 600 });
+    crate::sim::watchdog(&args, if args.tier == kvcore::Tier::Thorough { 3600 } else { 900 });
     let mut run = Run::new(
         args.clone(),
         "exploration",
@@ -1255,7 +1255,7 @@ pub fn run(args: Args) {
     run.assume("LdapServer reads the wall clock itself; nothing judged depends on it");
     run.assume("the native reference answer is search_ext by the anonymous entry's read-only identity rendered by Entry::to_ldap; filters and bases are translated by the harness, not by kanidm");
     let thorough = args.tier == kvcore::Tier::Thorough;
-    let conns_per_worker: u64 = if thorough { 8000 } else { 800 };
+    let conns_per_worker: u64 = if thorough { 5000 } else { 500 };
     let seed = args.seed;
     run.parallel(args.workers, |w, _n| {
         let mut acc = Acc::new();
